@@ -4,6 +4,7 @@ payload: {"cases": [case, ...]}
 case = {"stream": str,
         "nodes": [ {"kind": "iface", "bases": [ids]} |
                    {"kind": "class", "cbases": [ids of earlier class nodes], "impl": [iface ids]} ],
+                   an iface node may carry "twin_of": id  (same __name__/__module__ as that earlier node)
         "rebase": [[node_id, [new base ids]], ...]        (optional)
         "env_strict": bool                                  (optional: only used by the oracle stream)
        }
@@ -80,7 +81,8 @@ def build(case, idx, w):
     classes = {}
     for i, nd in enumerate(case["nodes"], 1):
         if nd["kind"] == "iface":
-            s = InterfaceClass("I%d_%d" % (idx, i), tuple(w.specs[b] for b in nd["bases"]), {})
+            # "twin_of": a distinct object with the (__name__, __module__) of an earlier node
+            s = InterfaceClass("I%d_%d" % (idx, nd.get("twin_of", i)), tuple(w.specs[b] for b in nd["bases"]), {})
         else:
             cb = tuple(classes[c] for c in nd["cbases"]) or (object,)
             cls = type("K%d_%d" % (idx, i), cb, {})
